@@ -25,9 +25,13 @@ def _case(draw):
     bdur = draw(st.sampled_from([0, 3 * H.U, 10 * H.U, 30 * H.U]))
     calls = draw(B.timed_calls(12, cfg, bdur, B.NAMES, explicit_keys=False, unique=True))
     mutate = None
-    if cfg['form'] == 'class' and draw(st.integers(0, 3)) == 0:
-        mutate = {'at': draw(st.sampled_from([c['at'] for c in calls])) + draw(st.sampled_from([0, H.U, cfg['bt']])),
-                  'mbs': draw(st.integers(1, 5))}
+    if draw(st.integers(0, 2)) == 0:
+        # the docs allow mutating max_batch_size while running (only the class exposes the attribute);
+        # mostly a *lowering* shortly after some item was taken, so that later arrivals meet the new limit
+        cfg = dict(cfg, form='class')
+        lower = draw(st.integers(0, 3)) > 0 and cfg['mbs'] > 1
+        mutate = {'at': draw(st.sampled_from([c['at'] for c in calls])) + draw(st.sampled_from([0, H.U, H.U, 2 * H.U, cfg['bt']])),
+                  'mbs': draw(st.integers(1, cfg['mbs'] - 1)) if lower else draw(st.integers(1, 5))}
     return {'cfg': cfg, 'calls': calls, 'behave': {}, 'order': 'fwd', 'bdur': bdur, 'idur': 0, 'mutate': mutate, 'fresh': 0}
 
 
